@@ -226,7 +226,9 @@ def gen_case(rng, tier, n=None, blocks=None, merge=None):
         "kind": "mapreduce", "special": special,
         "gmm": gmm, "X": L(X), "blocks": blocks, "backends": backends,
         "entry": rng.choice(["acc_stats", "acc_stats", "transform"]),
-        "transfer": [rng.choice(["shared", "shared", "copied", "copied", "relaid"]) for _ in range(nb)],
+        "transfer": [rng.choice(["shared", "shared", "copied", "copied", "relaid"] +
+                                (["reloaded", "reloaded_into_other_shape"] if nb <= 8 else []))
+                     for _ in range(nb)],
         "merge": merge if merge is not None else _gen_merge(rng, nb),
         "lazy": lazy,
         "acc_how": rng.choice(["fresh", "reset", "resize", "init_fields"]),
@@ -435,6 +437,30 @@ def run_case(case, replay=None):
         if case["transfer"][i] == "copied":
             st = cloudpickle.loads(cloudpickle.dumps(st))
             rec.faults["F3_input_copies"] += 1
+        elif case["transfer"][i] in ("reloaded", "reloaded_into_other_shape") and not _is_lazy(st):
+            # the partial was written to disk by the worker that computed it and read back by
+            # the one that merges - into a new object, or into a recycled container of
+            # another shape
+            import os
+            import tempfile
+            fd, tmpf = tempfile.mkstemp(prefix="verif-c02-", suffix=".hdf5")
+            os.close(fd)
+            try:
+                import h5py
+                with h5py.File(tmpf, "w") as f:
+                    st.save(f)
+                if case["transfer"][i] == "reloaded":
+                    st = GMMStats.from_hdf5(tmpf)
+                else:
+                    tgt = GMMStats(st.n_gaussians + 1, st.n_features + 2)
+                    tgt.n = tgt.n + 5.0
+                    tgt.load(tmpf)
+                    st = tgt
+            finally:
+                import gc
+                gc.collect()
+                os.unlink(tmpf)
+            rec.probe("partial_reloaded_from_disk")
         elif case["transfer"][i] == "relaid" and not _is_lazy(st):
             # the partial's arrays were re-assembled by the caller in another memory layout
             st = _copy.deepcopy(st)
